@@ -22,7 +22,9 @@ def run(ctx):
     RK.lower_rules(ctx, "R15.l")
     from . import r_lang as _RL
     _RL.table_rules(ctx, None, None, "R15.o", None, None, rule_m="R15.o")
-    return info("R15.o: reduction tables are closed under case (including characters that only map TO a key, such as U+1E9E) and Lang::new starts empty. R15.a: stage order on both builder chains (normalize first; fin before split; split before strip/pos/stem; "
+    from . import r_word as _RW2
+    _RW2.no_shadowed_defaults(ctx, "R15.p")
+    return info("R15.p: no impl overrides a provided method of the crate's traits (Word::len / dist / is_function, LimitSort). R15.o: reduction tables are closed under case (including characters that only map TO a key, such as U+1E9E) and Lang::new starts empty. R15.a: stage order on both builder chains (normalize first; fin before split; split before strip/pos/stem; "
                 "strip before pos/stem; lower before pos/stem); R15.b/c: query and record tokenisers run the same stages with "
                 "equal split/strip class sets {Whitespace,Control,Punctuation}/{NotAlphaNum}, fin(false) only for queries; "
                 "R15.d: every Text method that filters/replaces `words` renumbers offsets afterwards; R15.e: emptied words are "
